@@ -7,6 +7,7 @@
 #include "common.h"
 #include <stdlib.h>
 #include <string.h>
+#include "log_stub.h"
 #include "websocket.c"
 #include "compression.c"
 #include "linux/jet_endian.c"
@@ -229,4 +230,146 @@ void h_ws_send(void)
 	VERIF_COVER(length == 126, "126");
 	VERIF_COVER(length == 65535, "65535");
 	VERIF_COVER(length == 65536, "65536");
+}
+
+/* ---- ws.frame: frame validation and dispatch (RFC 6455 sections 5.4, 5.5, 7.4) -------------------
+ * ws_handle_frame from an arbitrary header state, arbitrary fragmentation state, payload of
+ * arbitrary length (content matters only for close frames: 2 code bytes + reason, judged by the UTF-8
+ * validator's assumed contract).  WS_DAEMON_CB selects the callback set: exactly what
+ * websocket_peer.c configures (1) or an arbitrary subset (0). */
+#ifndef WS_DAEMON_CB
+#define WS_DAEMON_CB 1
+#endif
+static bool ws_code_valid(unsigned c) /* RFC 6455 7.4.1/7.4.2 as the daemon reads it: 1000-1003, 1007-1011, 3000-4999 */
+{
+	return (c >= 1000 && c <= 1003) || (c >= 1007 && c <= 1011) || (c >= 3000 && c <= 4999);
+}
+void h_ws_frame(void)
+{
+	struct websocket s;
+	arbitrary_ws(&s, WS_DAEMON_CB);
+	uint8_t frame[4];
+	size_t length;
+	__CPROVER_assume(length <= ((size_t)1 << 32));
+	/* representation invariant of the fragmentation state */
+	__CPROVER_assume(s.ws_flags.is_fragmented ? (s.ws_flags.frag_opcode == WS_TEXT_FRAME || s.ws_flags.frag_opcode == WS_BINARY_FRAME)
+	                                          : s.ws_flags.frag_opcode == WS_CONTINUATION_FRAME);
+	__CPROVER_assume(s.ws_flags.is_frag_compressed == 0);
+	unsigned fin = s.ws_flags.fin, rsv = s.ws_flags.rsv, op = s.ws_flags.opcode, fragmented = s.ws_flags.is_fragmented, frag_op = s.ws_flags.frag_opcode;
+	enum websocket_callback_return r = ws_handle_frame(&s, frame, length);
+
+	bool control = op >= 8;
+	bool reserved = (op >= 3 && op <= 7) || op >= 11;
+	bool protocol_error = rsv != 0 || reserved || (control && !fin) || (control && op != 8 && length > 125) ||
+		(op == 0 && !fragmented) || ((op == 1 || op == 2) && fragmented) ||
+		(op == 8 && length == 1);
+	unsigned code = ((unsigned)frame[0] << 8) | frame[1];
+	if (protocol_error) {
+		__CPROVER_assert(r == WS_CLOSED && CLOSED_WITH(WS_CLOSE_PROTOCOL_ERROR) && verif_cb_calls == 0, "C12.frame.protocol-violation-closes-1002");
+	} else if (op == 9) {
+		/* ping: answered by a pong with the identical payload */
+		__CPROVER_assert(verif_wr_calls == 1 && verif_wr_hdr[0] == 0x8A && verif_wr_payload == frame && verif_wr_payload_len == length &&
+			(verif_wr_hdr[1] & 127) == length, "C12.frame.ping-answered-by-identical-pong");
+		__CPROVER_assert(verif_free_conn == 0 && verif_on_error == 0, "C12.frame.ping-keeps-connection");
+	} else if (op == 10) {
+		__CPROVER_assert(verif_wr_calls == 0 && verif_free_conn == 0 && (s.pong_received == NULL ? verif_cb_calls == 0 : (verif_cb_calls == 1 && verif_cb_kind == CB_PONG)), "C12.frame.pong-only-reported");
+	} else if (op == 8) {
+		bool bad_code = (length >= 2 && !ws_code_valid(code)) || length > 125; /* oversized close frames: 1002 */
+		bool bad_reason = length > 2 && !verif_u8_verdict;
+		if (length > 2)
+			__CPROVER_assert(verif_u8_calls == 1 && verif_u8_seq == frame + 2 && verif_u8_len == length - 2 && verif_u8_complete, "C12.close.reason-validated-as-complete-utf8");
+		if (bad_code || bad_reason) {
+			__CPROVER_assert(r == WS_CLOSED && verif_cb_calls == 0 &&
+				((bad_code && CLOSED_WITH(WS_CLOSE_PROTOCOL_ERROR)) || (bad_reason && CLOSED_WITH(WS_CLOSE_UNSUPPORTED_DATA))), "C12.close.invalid-code-or-reason-closes-with-matching-status");
+		} else {
+			__CPROVER_assert(r == WS_CLOSED && verif_wr_calls == 1 && verif_wr_hdr[0] == 0x88 && verif_wr_payload_len == 2 &&
+				verif_wr_payload_copy[0] == (1000 >> 8) && verif_wr_payload_copy[1] == (1000 & 0xff) && verif_free_conn == 1 && verif_on_error == 0,
+				"C12.close.valid-close-is-echoed-and-connection-released-once");
+			__CPROVER_assert(s.close_received == NULL ? verif_cb_calls == 0 : (verif_cb_calls == 1 && verif_cb_kind == CB_CLOSE && verif_cb_code == (length >= 2 ? code : 1000)), "C12.close.reported-with-its-code");
+		}
+	} else if (fin && !fragmented) {
+		/* unfragmented data message */
+		bool has_cb = op == 1 ? s.text_message_received != NULL : s.binary_message_received != NULL;
+		if (has_cb) {
+			__CPROVER_assert(verif_cb_calls == 1 && verif_cb_kind == (op == 1 ? CB_TEXT_MSG : CB_BIN_MSG) && verif_cb_msg == frame && verif_cb_len == length, "C12.frame.data-message-delivered-unchanged");
+			__CPROVER_assert(verif_cb_ret != WS_OK || (r == WS_OK && verif_wr_calls == 0 && verif_free_conn == 0), "C12.frame.accepted-message-keeps-connection");
+		} else {
+			__CPROVER_assert(r == WS_CLOSED && CLOSED_WITH(WS_CLOSE_UNSUPPORTED) && verif_cb_calls == 0, "C12.frame.unsupported-data-type-closes-1003");
+		}
+	} else {
+		/* a fragment of a data message (start, middle or end): processed or refused with a close frame */
+		unsigned kind = (op == 0 ? frag_op : op);
+		bool has_cb = kind == 1 ? s.text_frame_received != NULL : s.binary_frame_received != NULL;
+		if (has_cb) {
+			__CPROVER_assert(verif_cb_calls == 1 && verif_cb_kind == (kind == 1 ? CB_TEXT_FRAME : CB_BIN_FRAME) && verif_cb_msg == frame && verif_cb_len == length &&
+				verif_cb_last == (fin != 0), "C12.frame.fragment-delivered-unchanged");
+			__CPROVER_assert(verif_cb_ret != WS_OK || (s.ws_flags.is_fragmented == !fin && (fin ? s.ws_flags.frag_opcode == 0 : s.ws_flags.frag_opcode == kind)), "C12.frame.fragmentation-state-tracked");
+		} else {
+			__CPROVER_assert(r == WS_CLOSED && verif_cb_calls == 0 && verif_wr_calls == 1 && verif_wr_hdr[0] == 0x88 && verif_free_conn == 1, "C12.frame.fragment-without-handler-refused-with-close-frame");
+		}
+	}
+	VERIF_COVER(protocol_error && rsv != 0, "rsv set");
+	VERIF_COVER(!protocol_error && op == 9 && length == 125, "ping 125");
+	VERIF_COVER(!protocol_error && op == 8 && length == 0, "empty close");
+	VERIF_COVER(!protocol_error && op == 8 && length == 30 && code == 3000, "close 3000 with reason");
+	VERIF_COVER(!protocol_error && op == 1 && fin && !fragmented && r == WS_OK, "text message accepted");
+	VERIF_COVER(!protocol_error && op == 2 && fin && !fragmented, "binary message");
+	VERIF_COVER(!protocol_error && op == 1 && !fin, "first text fragment");
+	VERIF_COVER(!protocol_error && op == 0 && fin && frag_op == 2, "last binary fragment");
+}
+
+/* ---- ws.payload: ws_get_payload (mask requirement, EOF, mapping of the dispatch result) ------------
+ * unmask_payload is cut off here (unit ws.unmask). */
+void h_ws_payload(void)
+{
+	struct websocket s;
+	arbitrary_ws(&s, true);
+	uint8_t buf[4];
+	size_t len;
+	unsigned mask = s.ws_flags.mask;
+	uint64_t want = s.length;
+	/* the dispatch itself is verified in ws.frame.*; here a pong frame stands for "some frame" whose
+	 * handler returns WS_OK, WS_CLOSED or WS_ERROR */
+	__CPROVER_assume(s.ws_flags.opcode == WS_PONG_FRAME && s.ws_flags.fin == 1 && s.ws_flags.rsv == 0 && len <= 125 && !s.ws_flags.is_fragmented);
+	enum bs_read_callback_return r = ws_get_payload(&s, buf, len);
+	if (len == 0 && want != 0) {
+		__CPROVER_assert(r == BS_CLOSED && CLOSED_WITH(WS_CLOSE_GOING_AWAY) && verif_rd_calls == 0, "C12.payload.eof-closes-1001");
+	} else if (mask == 0) {
+		__CPROVER_assert(r == BS_CLOSED && CLOSED_WITH(WS_CLOSE_PROTOCOL_ERROR) && verif_rd_calls == 0, "C12.payload.unmasked-client-frame-closes-1002");
+	} else {
+		__CPROVER_assert(verif_cb_calls == 1, "C12.payload.frame-dispatched-once");
+		if (verif_cb_ret == WS_OK)
+			__CPROVER_assert(r == BS_OK && verif_rd_calls == 1 && verif_rd_num == 1 && verif_rd_handler == ws_get_header && verif_rd_ctx == &s && verif_free_conn == 0, "C12.payload.continues-with-next-header");
+		else if (verif_cb_ret == WS_CLOSED)
+			__CPROVER_assert(r == BS_CLOSED && verif_rd_calls == 0, "C12.payload.closed-stops-reading");
+		else
+			__CPROVER_assert(r == BS_CLOSED && verif_rd_calls == 0 && CLOSED_WITH(WS_CLOSE_INTERNAL_ERROR), "C12.payload.handler-error-closes-1011");
+	}
+	VERIF_COVER(mask == 0 && len > 0, "unmasked");
+	VERIF_COVER(mask == 1 && r == BS_OK, "continues");
+	VERIF_COVER(mask == 1 && r == BS_CLOSED, "stops");
+}
+
+/* ---- ws.unmask: unmask_payload (RFC 6455 section 5.3) --------------------------------------------
+ * BOUNDED: payload length <= WS_UNMASK_MAX, every start alignment 0..7 inside its allocation, every
+ * mask and content.  Ghost indices j (inside) and k (outside) generalise over all positions. */
+#ifndef WS_UNMASK_MAX
+#define WS_UNMASK_MAX 20
+#endif
+void h_ws_unmask(void)
+{
+	uint8_t mem[WS_UNMASK_MAX + 16], orig[WS_UNMASK_MAX + 16];
+	uint8_t mask[4];
+	unsigned align = nondet_uint();
+	size_t length, j, k;
+	__CPROVER_assume(align < 8 && length <= WS_UNMASK_MAX);
+	memcpy(orig, mem, sizeof(mem));
+	unmask_payload(mem + align, length, mask);
+	__CPROVER_assume(j < length);
+	__CPROVER_assert(mem[align + j] == (orig[align + j] ^ mask[j % 4]), "C12.unmask.every-payload-byte-xored-with-mask-j-mod-4");
+	__CPROVER_assume(k < sizeof(mem) && (k < align || k >= align + length));
+	__CPROVER_assert(mem[k] == orig[k], "C12.unmask.nothing-outside-the-payload-written");
+	VERIF_COVER(length == WS_UNMASK_MAX && align == 3, "long unaligned payload");
+	VERIF_COVER(length == 3, "short payload");
+	VERIF_COVER(length == 8 && align == 0, "exactly one aligned word");
 }
